@@ -52,6 +52,9 @@ type fnCtx struct {
 	isFn      bool
 	noReturn  bool // body must not contain `return` (the method does not return Int)
 	inHandler int  // > 0: inside a catch clause or a finally block
+	// > 0: inside the body of a do expression that has a finally clause, or after a defer in this
+	// function: exits are what the property is about, so jump statements get more weight there
+	exitBias int
 }
 
 type G struct {
@@ -312,6 +315,10 @@ func (g *G) stmt(depth int) []*N {
 		if f.isFn && !f.noReturn {
 			kinds = append(kinds, "return")
 		}
+		if f.exitBias > 0 {
+			kinds = append(kinds, kinds...)
+			kinds = append(kinds, kinds...)
+		}
 	}
 	if depth < g.p.MaxDepth {
 		if g.p.Throw {
@@ -475,6 +482,7 @@ func (g *G) stmt(depth int) []*N {
 		} else {
 			inner = g.trace()
 		}
+		f.exitBias++ // for the rest of this function
 		return []*N{{K: "defer", B: [][]*N{{inner}}}}
 	case "do":
 		return g.doCatch(depth)
@@ -594,13 +602,19 @@ func (g *G) doCatch(depth int) []*N {
 		}
 		return b
 	}
-	n.B = append(n.B, tail(g.block(rapid.IntRange(1, 4).Draw(g.t, "ndo"), depth+1, false)))
 	nc := g.draw(3, "ncatch")
 	if g.p.NoCatchInsideHandler && g.fn().inHandler > 0 && nc > 0 {
 		nc = 0
 		g.RestrictedPending++
 	}
 	hasFinally := nc == 0 || g.chance(2, "fin")
+	if hasFinally {
+		g.fn().exitBias++
+	}
+	n.B = append(n.B, tail(g.block(rapid.IntRange(1, 4).Draw(g.t, "ndo"), depth+1, false)))
+	if hasFinally {
+		g.fn().exitBias--
+	}
 	for i := 0; i < nc; i++ {
 		cl := &N{}
 		switch g.draw(4, "ck") {
